@@ -19,6 +19,7 @@ import (
 	"syscall"
 	"time"
 
+	"github.com/ansible/receptor/pkg/verifhook"
 	"github.com/ghjm/cmdline"
 	"github.com/google/shlex"
 	"github.com/spf13/viper"
@@ -95,10 +96,13 @@ func commandRunner(command string, params string, unitdir string) error {
 	status := StatusFileData{}
 	status.ExtraData = &CommandExtraData{}
 	statusFilename := path.Join(unitdir, "status")
+	verifhook.Emit("runner", "rn_begin", "unitdir", unitdir)
+	verifhook.CrashPoint("runner_begin")
 	err := status.UpdateBasicStatus(statusFilename, WorkStatePending, "Not started yet", 0)
 	if err != nil {
 		MainInstance.nc.GetLogger().Error("Error updating status file %s: %s", statusFilename, err)
 	}
+	verifhook.CrashPoint("runner_after_pending")
 	var cmd *exec.Cmd
 	if params == "" {
 		cmd = exec.Command(command)
@@ -155,6 +159,8 @@ func commandRunner(command string, params string, unitdir string) error {
 	if err != nil {
 		return err
 	}
+	verifhook.Emit("runner", "rn_child", "unitdir", unitdir, "pid", cmd.Process.Pid)
+	verifhook.CrashPoint("runner_after_child_start")
 	doneChan := make(chan bool, 1)
 	go cmdWaiter(cmd, doneChan)
 	writeStatusFailures := 0
@@ -164,7 +170,11 @@ loop:
 		case <-doneChan:
 			break loop
 		case <-termChan:
+			verifhook.Emit("runner", "rn_term", "unitdir", unitdir)
+			verifhook.CrashPoint("runner_on_term")
 			termThenKill(cmd, doneChan)
+			verifhook.Emit("runner", "rn_term_done", "unitdir", unitdir)
+			verifhook.CrashPoint("runner_after_term_kill")
 			err = status.UpdateBasicStatus(statusFilename, WorkStateFailed, "Killed", stdoutSize(unitdir))
 			if err != nil {
 				MainInstance.nc.GetLogger().Error("Error updating status file %s: %s", statusFilename, err)
@@ -192,6 +202,9 @@ loop:
 
 		return err
 	}
+	verifhook.Emit("runner", "rn_child_exit", "unitdir", unitdir, "ok", cmd.ProcessState.Success())
+	verifhook.CrashPoint("runner_before_final")
+	verifhook.Gate("runner_before_final")
 	if cmd.ProcessState.Success() {
 		err = status.UpdateBasicStatus(statusFilename, WorkStateSucceeded, cmd.ProcessState.String(), stdoutSize(unitdir))
 		if err != nil {
@@ -203,6 +216,8 @@ loop:
 			MainInstance.nc.GetLogger().Error("Error updating status file %s: %s", statusFilename, err)
 		}
 	}
+	verifhook.Emit("runner", "rn_exit", "unitdir", unitdir)
+	verifhook.CrashPoint("runner_after_final")
 	os.Exit(cmd.ProcessState.ExitCode())
 
 	return nil
@@ -261,21 +276,34 @@ func (cw *commandUnit) runCommand(cmd *exec.Cmd) error {
 	cw.done = false
 	cmd.Stdout = os.Stdout
 	cmd.Stderr = os.Stderr
+	if verifhook.On {
+		cmd.Env = append(os.Environ(), "VERIF_CRASH_ROLE=runner")
+	}
+	verifhook.CrashPoint("start_before_spawn")
 	if err := cmd.Start(); err != nil {
 		cw.UpdateBasicStatus(WorkStateFailed, fmt.Sprintf("Failed to start command runner: %s", err), 0)
 
 		return err
 	}
+	if verifhook.On {
+		verifhook.Emit("wu", "wu_spawn", "id", cw.ID(), "pid", cmd.Process.Pid)
+	}
+	verifhook.CrashPoint("start_after_spawn")
 	cw.UpdateFullStatus(func(status *StatusFileData) {
 		if status.ExtraData == nil {
 			status.ExtraData = &CommandExtraData{}
 		}
 		status.ExtraData.(*CommandExtraData).Pid = cmd.Process.Pid
 	})
+	verifhook.CrashPoint("start_after_pid")
 	doneChan := make(chan bool)
 	go func() {
 		<-doneChan
 		cw.done = true
+		if verifhook.On {
+			verifhook.Emit("wu", "wu_runner_exit", "id", cw.ID())
+		}
+		verifhook.CrashPoint("daemon_on_runner_exit")
 		cw.UpdateFullStatus(func(status *StatusFileData) {
 			status.ExtraData = nil
 		})
@@ -317,6 +345,10 @@ func (cw *commandUnit) Restart() error {
 		return err
 	}
 	state := cw.Status().State
+	if verifhook.On {
+		verifhook.Emit("wu", "wu_restart", "id", cw.ID(), "state", state)
+	}
+	verifhook.CrashPoint("restart_after_load")
 	if IsComplete(state) {
 		// Job already complete - no need to restart monitoring
 		return nil
@@ -336,6 +368,10 @@ func (cw *commandUnit) Cancel() error {
 	status := cw.Status()
 	ced, ok := status.ExtraData.(*CommandExtraData)
 	if !ok || ced.Pid <= 0 {
+		if verifhook.On {
+			verifhook.Emit("wu", "wu_cancel", "id", cw.ID(), "stage", "nopid", "state", status.State)
+		}
+
 		return nil
 	}
 	proc, err := os.FindProcess(ced.Pid)
@@ -345,16 +381,30 @@ func (cw *commandUnit) Cancel() error {
 	defer proc.Release()
 	err = proc.Signal(os.Interrupt)
 	if err != nil {
+		if verifhook.On {
+			verifhook.Emit("wu", "wu_cancel", "id", cw.ID(), "stage", "signal_err", "pid", ced.Pid, "err", err.Error())
+		}
 		if strings.Contains(err.Error(), "already finished") {
 			return nil
 		}
 
 		return err
 	}
+	if verifhook.On {
+		verifhook.Emit("wu", "wu_cancel", "id", cw.ID(), "stage", "signalled", "pid", ced.Pid, "state", status.State)
+	}
+	verifhook.CrashPoint("cancel_after_signal")
 
 	proc.Wait()
+	if verifhook.On {
+		verifhook.Emit("wu", "wu_cancel", "id", cw.ID(), "stage", "waited", "pid", ced.Pid)
+	}
+	verifhook.CrashPoint("cancel_after_wait")
 
 	cw.UpdateBasicStatus(WorkStateCanceled, "Canceled", -1)
+	if verifhook.On {
+		verifhook.Emit("wu", "wu_cancel", "id", cw.ID(), "stage", "done", "pid", ced.Pid)
+	}
 
 	return nil
 }
